@@ -7,15 +7,9 @@ def opcodeTypes : Nat := 100
 
 /-- (opcode type, field, kind of reference type, Simulate writes through it) -/
 def refFields : List (String × String × String × Bool) := [
-  ("Addp", "pipeline", "pointer", true),
   ("Cmpr", "pipeline", "pointer", false),
   ("Cmprlt", "pipeline", "pointer", false),
-  ("Divp", "pipeline", "pointer", true),
-  ("FXP", "pipeline", "pointer", true),
-  ("FixedPoint", "pipeline", "pointer", true),
-  ("FloPoCo", "entities", "slice", false),
-  ("LinearQuantizer", "pipeline", "pointer", true),
-  ("Multp", "pipeline", "pointer", true)
+  ("FloPoCo", "entities", "slice", false)
 ]
 
 /-- (opcode type, package-level variable of pkg/procbuilder assigned inside its Simulate) -/
